@@ -820,7 +820,7 @@ def _task(section, fam, vkey, nontrivial, **args):
     return {'section': section, 'fam': fam, 'vkey': vkey, 'nontrivial': nontrivial, 'args': args}
 
 
-def tasks_ordering(thorough):
+def tasks_ordering(thorough, rng):
     out = []
     maxN = 8 if thorough else 7
     for n in range(0, maxN + 1):
@@ -835,22 +835,27 @@ def tasks_ordering(thorough):
                 for plant in (False, True):
                     out.append(_task('gop', 'ordering', 'gop:{}:' + variant, len(edges) > 0,
                                      n=n, edges=edges, variant=variant, plant=plant, complete=False))
+    if not thorough:        # quick tier: a seeded sample of the 1024 graphs on 5 vertices
+        for _, edges in rng.sample(list(en.simple_graphs(5)), 150):
+            for variant in VARIANTS:
+                for plant in (False, True):
+                    out.append(_task('gop', 'ordering', 'gop:{}:' + variant, len(edges) > 0,
+                                     n=5, edges=edges, variant=variant, plant=plant, complete=False))
     return out
 
 
 def tasks_pebbling(thorough):
     out = []
-    maxV = 5 if thorough else 4
-    for n in range(0, maxV + 1):
+    for n in range(0, 6):
         for _, edges in en.simple_graphs(n):          # edges (u,v), u<v: every DAG in topological order
             out.append(_task('peb', 'pebbling', 'peb:{}', n >= 1, n=n, edges=edges))
             for s in range(0, 4):
-                if n == 5 and s == 3:
+                if n == 5 and (s == 3 or not thorough):
                     continue
                 out.append(_task('stone', 'stone', 'stone:{}', n >= 1 and s >= 1, n=n, edges=edges, nstones=s, bedges=None))
-    shapes = [(0, 0), (0, 2), (1, 0), (1, 1), (1, 2), (2, 0), (2, 1), (2, 2), (3, 1), (3, 2), (1, 3), (2, 3)]
+    shapes = [(0, 0), (0, 2), (1, 0), (1, 1), (1, 2), (2, 0), (2, 1), (2, 2), (3, 1), (3, 2), (1, 3), (2, 3), (3, 3)]
     if thorough:
-        shapes += [(3, 3), (4, 1), (4, 2)]
+        shapes += [(4, 1), (4, 2)]
     for n, s in shapes:
         for _, edges in en.simple_graphs(n):
             for _, _, bedges in en.bipartite_graphs(n, s):
@@ -990,9 +995,9 @@ def run(ctx):
              'independently; non-trivial iff the instance has at least one non-degenerate axiom '
              '(>= 2 elements / >= 1 edge / >= 1 vertex and stone / N >= 1)')
     ctx.bounds['op'] = 'OrderingPrinciple N = 0..{}, 8 flag combinations (plain,total,smart,smart+total,knuth2,knuth3,total+knuth2/3) x plant'.format(8 if thorough else 7)
-    ctx.bounds['gop'] = 'GraphOrderingPrinciple on all labelled graphs with <= {} vertices, same 16 variants'.format(5 if thorough else 4)
-    ctx.bounds['peb/stone'] = 'all DAGs (edges u<v) with <= {} vertices; stones 0..3; sparse stone: all DAGs x all availability graphs of shapes up to {}'.format(
-        5 if thorough else 4, '4x2, 3x3' if thorough else '3x2, 2x3')
+    ctx.bounds['gop'] = 'GraphOrderingPrinciple on all labelled graphs with <= {} vertices, same 16 variants{}'.format(5 if thorough else 4, '' if thorough else '; plus a seeded sample of 150 graphs on 5 vertices')
+    ctx.bounds['peb/stone'] = 'pebbling: all DAGs (edges u<v) with <= 5 vertices; stone: <= {} vertices, stones 0..3{}; sparse stone: all DAGs x all availability graphs of shapes up to {}'.format(
+        5 if thorough else 4, ' (0..2 on 5 vertices)' if thorough else '', '4x2, 3x3' if thorough else '3x3')
     ctx.bounds['cpls'] = 'a = 1..{}, b,c in {}'.format(4 if thorough else 3, '{1,2,4,8}' if thorough else '{1,2,4}')
     ctx.bounds['pitfall'] = '(v,d) with d<v<={}, vd even; ny in 2..{}, nz in {{2,3}}, k in {{2,4}}; {} seeds (20 for ny=nz=k=2)'.format(
         8 if thorough else 6, 4 if thorough else 3, 8 if thorough else 3)
@@ -1001,7 +1006,7 @@ def run(ctx):
         *((5, 16, 4) if thorough else (4, 12, 3)))
     ctx.bounds['ptn'] = 'N = 0..60 (models for N <= {}), structure for N in {}'.format(
         *((22, '100,169,200,1000,3000,8000') if thorough else (20, '100,169,200,500')))
-    tasks = (tasks_ordering(thorough) + tasks_pebbling(thorough) + tasks_cpls(thorough) +
+    tasks = (tasks_ordering(thorough, random.Random(ctx.seed)) + tasks_pebbling(thorough) + tasks_cpls(thorough) +
              tasks_pitfall(thorough, ctx.seed) + tasks_colourings(thorough))
     run_tasks(ctx, tasks)
     ctx.sample({'family': 'GraphOrderingPrinciple', 'n': 4, 'edges': [(1, 2), (2, 3), (3, 4)], 'variant': 'knuth2', 'plant': True})
